@@ -1,12 +1,49 @@
 (* util.resolve_dtype (regenerated from source into Gen.Gen_util on every run) equals the typed function
    SF.Coerce.resolve on every pair of dtypes. *)
 Require Import SF.Prelude SF.PySlice SF.Dtype SF.PyDyn Gen.Gen_util SF.Coerce.
-Require Import SF.PyDynTac.
-Local Opaque py_slice_indices Z.mul Z.div Z.add Z.sub Z.min Z.max Z.abs Z.opp Z.modulo Z.gtb Z.eqb Z.ltb Z.leb Z.geb adj_bound.
+Local Open Scope string_scope.
+Local Open Scope Z_scope.
+
+Definition is_num (d : dtype) : bool := match d with DInt _ _ | DFlt _ | DCplx _ => true | _ => false end.
+
+Ltac split_ifs :=
+  repeat match goal with
+         | |- context [if ?c then _ else _] => destruct c
+         end.
+
+(* where resolve_dtype calls np.result_type the oracle is defined *)
+Lemma rt_num_ok d1 d2 : is_num d1 = true -> is_num d2 = true -> exists d, np_result_type d1 d2 = Ok d.
+Proof.
+  destruct d1 as [|s1 b1|b1|b1|n1|n1|u1|u1|], d2 as [|s2 b2|b2|b2|n2|n2|u2|u2|]; cbn [is_num]; try discriminate;
+    intros _ _; unfold np_result_type; split_ifs; eauto.
+Qed.
+
+Lemma rt_str_ok d1 d2 : is_strlike d1 = true -> is_strlike d2 = true -> exists d, np_result_type d1 d2 = Ok d.
+Proof.
+  destruct d1, d2; cbn [is_strlike]; try discriminate; intros _ _; unfold np_result_type; eauto.
+Qed.
+
+Lemma rt_dt_ok u1 u2 : exists d, np_result_type (DDt u1) (DDt u2) = Ok d.
+Proof. unfold np_result_type; eauto. Qed.
+
+Lemma rt_td_ok u1 u2 : (exists d, np_result_type (DTd u1) (DTd u2) = Ok d) \/ np_result_type (DTd u1) (DTd u2) = Err "TypeError".
+Proof. unfold np_result_type. cbv zeta. split_ifs; eauto. Qed.
+
+Local Opaque np_result_type dtype_eqb.
 
 Lemma resolve_refines d1 d2 :
   resolve_dtype (PDtype d1) (PDtype d2) = PDtype (resolve d1 d2).
 Proof.
-  unfold resolve_dtype, resolve.
-  destruct d1 as [|s1 b1|b1|b1|n1|n1|u1|u1|], d2 as [|s2 b2|b2|b2|n2|n2|u2|u2|]; dyn_refine.
+  destruct d1 as [|s1 b1|b1|b1|n1|n1|u1|u1|], d2 as [|s2 b2|b2|b2|n2|n2|u2|u2|];
+    try destruct s1; try destruct s2;
+    match goal with |- ?l = ?r => let l' := eval lazy in l in let r' := eval lazy in r in change (l' = r') end;
+    match goal with |- context [dtype_eqb ?a ?b] => destruct (dtype_eqb a b) end;
+    lazymatch goal with
+    | |- context [np_result_type (DTd ?a) (DTd ?b)] => destruct (rt_td_ok a b) as [[d ->] | ->]; reflexivity
+    | |- context [np_result_type (DDt ?a) (DDt ?b)] => destruct (rt_dt_ok a b) as [d ->]; reflexivity
+    | |- context [np_result_type ?a ?b] =>
+        first [ destruct (rt_num_ok a b eq_refl eq_refl) as [d ->]
+              | destruct (rt_str_ok a b eq_refl eq_refl) as [d ->] ]; reflexivity
+    | |- _ => reflexivity
+    end.
 Qed.
